@@ -1,6 +1,41 @@
-(* C05 — placeholder while the invariants are being proved (see Proofs/ExecProofs.v). *)
-From Coq Require Import List.
-From FB Require Import Model.Exec.
-Example C05_model_runs : exists nt s, run nt 1 (init nt) nil = Ok s.
-Proof. exists nil, (init nil). reflexivity. Qed.
-Print Assumptions C05_model_runs.
+(* C05 — Per-node concurrency bound, setup-before-use, and race-free framework state.
+   PARTIAL: freedom from data races in the Go memory model cannot be expressed in an executable Gallina model.
+   What is proved: the concurrency bound and setup-before-use for every schedule; every shared location of the
+   model is a channel, a wait-group/once state or a counter touched only by the action modelling the Go
+   primitive (a property of how Model/Exec.v is written).  Supporting evidence only (not proof): the thorough
+   tier runs the free-running driver built with -race. *)
+From Coq Require Import List ZArith Bool Arith.
+From FB Require Import Model.Exec Model.TraceSpec Model.ExecInv.
+From FB Require Proofs.ExecCount Proofs.ExecLink Proofs.ExecSpec.
+Import ListNotations.
+
+(* never more processing calls in progress than configured workers, in any reachable state *)
+Theorem C05_calls_bounded : forall nt T s n, reachable nt T s -> n < length nt ->
+  length (filter (fun w => match w with WProc _ => true | _ => false end) (ws (node s n))) <= nworkers (info nt n).
+Proof. exact ExecCount.calls_bounded. Qed.
+
+(* the calls in progress are exactly the entered-and-not-yet-returned calls of the observable trace *)
+Theorem C05_open_calls_are_workers : forall nt T s n, wf_net nt = true -> reachable nt T s -> n < length nt ->
+  open_calls n (tr s) = length (filter ExecCount.is_wproc (ws (node s n))).
+Proof. intros nt T s n Hwf Hr. exact (ExecLink.k_calls nt s (ExecLink.link_reachable nt T s Hwf Hr) n). Qed.
+
+(* every node of the pruned table is initialised and set up exactly once, nothing else is, and all of it before
+   the source is started (hence before any event) *)
+Theorem C05_setup_exactly_once : forall nt T s n, wf_net nt = true -> reachable nt T s -> n < length nt ->
+  is_setup n (tr s) = true /\ ExecLink.cnt_setup n (tr s) = 1.
+Proof. intros nt T s n Hwf Hr. exact (ExecLink.k_setup nt s (ExecLink.link_reachable nt T s Hwf Hr) n). Qed.
+Theorem C05_nothing_else_set_up : forall nt T s m, wf_net nt = true -> reachable nt T s -> length nt <= m ->
+  is_setup m (tr s) = false.
+Proof. intros nt T s m Hwf Hr. exact (ExecLink.k_setup_range nt s (ExecLink.link_reachable nt T s Hwf Hr) m). Qed.
+
+(* the clauses evaluated on the implementation's traces ((5,1) set up before any event, (5,2) exactly once,
+   (5,3) before the source starts, (5,4) at most N calls in progress) hold of every run of the model *)
+Theorem C05_spec_sound : forall nt T s, wf_net nt = true -> forallb (fun x => Nat.ltb 0 (nworkers x)) nt = true ->
+  reachable nt T s -> trace_ok nt (tr s) = [].
+Proof. exact ExecSpec.trace_ok_reachable. Qed.
+
+Print Assumptions C05_calls_bounded.
+Print Assumptions C05_open_calls_are_workers.
+Print Assumptions C05_setup_exactly_once.
+Print Assumptions C05_nothing_else_set_up.
+Print Assumptions C05_spec_sound.
